@@ -313,6 +313,18 @@ theorem C17_stored_eq_sent_eq_read (s : Scalar) (opts : List Nat) (h : scalarOK 
     rw [htn] at hrt
     exact ⟨tv, rfl, hrt, hrt⟩
 
+/-- Two supported scalars that are stored identically (under the same type options) are the
+    same value: nothing is conflated on the way in. -/
+theorem C17_native_injective (s t : Scalar) (opts : List Nat) (hs : scalarOK s = true) (ht : scalarOK t = true)
+    (h : toNative (.scalar s) opts = toNative (.scalar t) opts) : norm s = norm t := by
+  have h1 := C17_roundtrip_scalar s opts hs
+  have h2 := C17_roundtrip_scalar t opts ht
+  simp only [roundTrip, h] at h1
+  simp only [roundTrip] at h2
+  rw [h1] at h2
+  injection h2 with h2
+  injection h2 with h2
+
 /-! ## The stored encoding -/
 
 /-- An int is stored as the big-endian bytes of its magnitude (no leading zero byte is added:
@@ -367,6 +379,12 @@ theorem C17_json_digits_exact (i : Int) : readInt (fmtInt i) = some i := readInt
 
 /-- … and the text of a JSON number token is that `%d` text. -/
 theorem C17_json_number_text (i : Int) : jsonText (.scalar (.num i)) = some (asciiBytes (fmtInt i)) := rfl
+
+/-- The text of the JSON string token of a wide integer is its `%d` text between double quotes:
+    nothing in it needs escaping. -/
+theorem C17_json_wide_int_text (i : Int) :
+    jsonText (.scalar (.str (asciiBytes (fmtInt i)))) = some (34 :: (asciiBytes (fmtInt i) ++ [34])) := by
+  simp only [jsonText, jsonScalarText, jsonQuote, jsonEscape_plain _ (fmtInt_plain i)]
 
 /-- A bool is the JSON literal `true` / `false`. -/
 theorem C17_json_bool (b : Bool) (opts : List Nat) (st : Bool) :
@@ -530,6 +548,7 @@ example : leafListOK [.dec (-5) 2, .dec 123456 2] = true := by decide
 example : leafListOK [.float 0x3DCCCCCD, .float 0x80000000] = true := by decide
 example : widthOK [64] = true ∧ widthOK [] = true ∧ widthOK [8] = true := by decide
 example : noEmptyMember [[1], [2, 3]] = true ∧ no1D [[], [97]] = true := by decide
+example : (true = false ∨ ([1] : Bytes) ≠ []) ∧ (false = false ∨ ([] : Bytes) ≠ []) := by decide
 example : (0 : Int) ≤ 5 ∨ (5 : Int) ≤ -((10 ^ 2 : Nat) : Int) := Or.inl (by decide)
 example : jsonOf (.scalar (.int 9223372036854775807)) [64] true =
     .ok (some (.scalar (.str (asciiBytes "9223372036854775807".toList)))) := by
